@@ -35,6 +35,35 @@ def _desc_min(seq, v, c, extra=None):
     return d
 
 
+def _dumps_deep(x):
+    """json.dumps without recursion (the standard encoder is recursive)."""
+    out = []
+    stack = [x]
+    while stack:
+        o = stack.pop()
+        if isinstance(o, str) and o.startswith("\0RAW"):
+            out.append(o[4:])
+        elif isinstance(o, dict):
+            stack.append("\0RAW}")
+            items = list(o.items())
+            for i, (k, v) in enumerate(reversed(items)):
+                stack.append(v)
+                stack.append("\0RAW" + json.dumps(k) + ":")
+                if i < len(items) - 1:
+                    stack.append("\0RAW,")
+            stack.append("\0RAW{")
+        elif isinstance(o, list):
+            stack.append("\0RAW]")
+            for i, v in enumerate(reversed(o)):
+                stack.append(v)
+                if i < len(o) - 1:
+                    stack.append("\0RAW,")
+            stack.append("\0RAW[")
+        else:
+            out.append(json.dumps(o))
+    return "".join(out)
+
+
 def two_auth(desc):
     blk = lambda i: {"CoseSign1Tagged": {"protected": {"suit-cose-algorithm-id": "cose-alg-es-256", "suit-cose-key-id": 100 + i}, "unprotected": {}, "payload": None, "signature": "%02x" % i * 64}}  # noqa: E731
     d = copy.deepcopy(desc)
@@ -64,6 +93,10 @@ def build_pool(ctx, index):
     collect()
     descs = [d for d in descs if 300 < len(json.dumps(d)) < 6000][:3] or descs[:3]
     descs.append(two_auth(descs[0]))
+    # texts the two renderings escape differently: non-BMP characters (surrogate pairs in JSON), DEL, NEL, line separators, BOM
+    descs.append(_desc_min(6, "acme.com", "texts", {"suit-text": {"en": {"suit-text-manifest-description": "rocket \U0001f680 clef \U0001d11e", "suit-text-update-description": "del\x7f nel\u0085 ls\u2028 bom\ufeff tab\t"}}}))
+    descs[-1]["SUIT_Envelope_Tagged"]["suit-manifest"]["suit-text"] = {"suit-digest-algorithm-id": "cose-alg-sha-256"}
+    descs[-1]["SUIT_Envelope_Tagged"]["suit-manifest"]["suit-reference-uri"] = "https://example.com/\U0001f680"
     ops = []
     prep = []  # derived input files are produced by the tool, each in its own fresh interpreter (the machine's interpreter starts clean)
     files = {}
@@ -89,6 +122,15 @@ def build_pool(ctx, index):
         "suit-parameter-image-size": {"file": P("blob1.bin")}}}]
     sut.dump_desc(fdesc, P("fdesc.json"))
     ops.append({"kind": "create", "input": P("fdesc.json"), "family": "create", "reads": [P("blob1.bin")]})
+    # a description nested far beyond the interpreter's recursion limit: refused alone - and must stay refused after other operations
+    deep = [{"suit-condition-image-match": []}]
+    for _ in range(600):
+        deep = [{"suit-directive-run-sequence": deep}]
+    ddesc = _desc_min(8, "acme.com", "deep")
+    ddesc["SUIT_Envelope_Tagged"]["suit-manifest"]["suit-validate"] = deep
+    with open(P("deep.json"), "w") as fh:
+        fh.write(_dumps_deep(ddesc))
+    ops.append({"kind": "create", "input": P("deep.json"), "family": "create", "expect_error": True})
     # hierarchy by path: parent refers to a child envelope file
     sut.dump_desc(_desc_min(9, "nordicsemi.com", "nRF54H20_sample_app", {"suit-integrated-payloads": {"#p": "0011"}}), P("child.json"))
     prep.append({"kind": "create", "input": P("child.json"), "save_as": {"out.suit": P("child.suit")}})
@@ -147,6 +189,21 @@ def build_pool(ctx, index):
     if not os.path.exists(P("prepared")):
         res = references(pool, list(range(len(prep))))
         bad = {i: r for i, r in res.items() if "ok" not in r}
+        for i in list(bad):
+            # an input envelope the tool refuses to create from one rendering: build it with the reference encoder so that the pool is
+            # complete - the refusal itself is judged where it belongs (JSON vs YAML comparison, C02)
+            op = prep[i]
+            if op["kind"] == "create" and op["input"].endswith(".json"):
+                try:
+                    from ..refenc import envelope as ref_envelope
+
+                    with open(op["input"]) as fh:
+                        data = ref_envelope(json.load(fh))
+                    with open(list(op["save_as"].values())[0], "wb") as fh:
+                        fh.write(data)
+                    del bad[i]
+                except Exception:
+                    pass
         if bad:
             raise boot.HarnessError(f"the tool refuses generated pool inputs on their own: {[(describe(prep[i]), r) for i, r in bad.items()]}")
         with open(P("prepared"), "w") as fh:
@@ -331,7 +388,7 @@ def run_shard(ctx, spec):
                              f"operation {describe(pool['ops'][i])} under PYTHONHASHSEED={hs} from another working directory gives {got[i]}, under PYTHONHASHSEED=0: {refs[i]}",
                              "identical output", bucket=f"hashseed:{pool['ops'][i]['family']}")
         errs = [i for i in range(n) if "ok" not in refs[i] and not pool["ops"][i].get("expect_error")]
-        if errs:
+        if errs and not acc.failures:
             raise boot.HarnessError(f"pool operations fail on their own: {[describe(pool['ops'][i]) for i in errs]} -> {[refs[i] for i in errs]}")
         return acc
     refs = {(i, tuple(0 for _ in pool["ops"][i].get("reads", [])) or 0): r for i, r in references(pool, list(range(n)), guard=guard).items()}
